@@ -511,6 +511,27 @@ func runCURSORCLONE(c *Ctx) {
 		c.Violation(fn, P.Pos(fn.Pos()), "Cursor does not clone the tree", "a cursor must capture a version (Clone); without it later changes to the tree move under the cursor")
 		return
 	}
+	// the captured tree is a Clone on every path: nothing else is ever stored into that local
+	for _, b := range fn.Blocks {
+		for _, ins := range b.Instrs {
+			st, ok := ins.(*ssa.Store)
+			if !ok || st.Addr != ssa.Value(nm) {
+				continue
+			}
+			isClone := false
+			if ex, ok := st.Val.(*ssa.Extract); ok && ex.Index == 0 {
+				if call, ok := ex.Tuple.(*ssa.Call); ok && ir.Callee(call.Call) == clone {
+					isClone = true
+				}
+			}
+			if isClone {
+				c.OK(P.InstrPos(st), "the cursor's tree is set from Clone", "store of Clone's result", false)
+			} else {
+				c.Violation(fn, P.InstrPos(st), "cursor's tree not always a Clone",
+					"on some path the cursor keeps a plain copy of the tree header instead of a Clone: the cursor then walks live, still-mutable nodes (an unshared clean root, e.g. of a never-modified empty tree, is filled in place by later Inserts)")
+			}
+		}
+	}
 	for _, ci := range CallsOf(fn) {
 		if ir.Callee(ci.Common()) != load {
 			continue
